@@ -279,6 +279,19 @@ def toc_case(draw, big=False):
                                                                                  'nlen': st.lists(st.integers(1, 22), min_size=1, max_size=4)})))}
 
 
+def big_directed_cases(tier):
+    """tables just below, at and above 255 entries for every protocol generation that can carry them (enumerated: detection must not
+    depend on what the drawn sub-check happens to draw)"""
+    for v in (4, 5, 10):
+        for (nlog, nparam) in ((256, 3), (3, 257), (255, 2), (2, 255), (300, 0)):
+            yield {'version': v, 'nlog': nlog, 'nparam': nparam, 'glen': [3, 7], 'nlen': [4, 9], 'tshift': v % 3, 'log_crc': 0x3000 + v, 'param_crc': 0x4000 + v,
+                   'needs_resending': False, 'delays': [0.001], 'cache': False, 'schedule': {'prefix': [], 'seed': v, 'rate': 0.0}, 'extmod': 5,
+                   'burst': [], 'latedup': {}, 'notify': [], 'second': None, 'cut': None}
+    yield {'version': 3, 'nlog': 255, 'nparam': 255, 'glen': [3, 7], 'nlen': [4, 9], 'tshift': 0, 'log_crc': 0x3003, 'param_crc': 0x4003,
+           'needs_resending': False, 'delays': [0.001], 'cache': False, 'schedule': {'prefix': [], 'seed': 3, 'rate': 0.0}, 'extmod': 5,
+           'burst': [], 'latedup': {}, 'notify': [], 'second': None, 'cut': None}
+
+
 def cut_cases(tier):
     """writable cache; the first connection is ended by the application at the k-th parameter-port packet for every k of the handshake, then
     two full connections follow (the second one served from the cache)"""
@@ -294,4 +307,5 @@ def subchecks(tier):
         Sub('tables', run_toc, strategy=toc_case(), examples={'quick': 500, 'thorough': 20000}),
         Sub('big-tables', run_toc, strategy=toc_case(big=True), examples={'quick': 12, 'thorough': 400}),
         Sub('cut-then-cached', run_toc, cases=cut_cases, distinct_by_construction=True),
+        Sub('big-tables-directed', run_toc, cases=big_directed_cases, distinct_by_construction=True),
     ]
